@@ -15,7 +15,7 @@ def r05_4(ctx, run, rule='R05.4'):
     f = ctx.facts
     b = f.one('functions::extract_by_jentry')
     if b is None:
-        run.violation(rule, 'functions::extract_by_jentry', 'body', 'function not found (anchor lost)')
+        run.undecided(rule, 'functions::extract_by_jentry', 'body', 'function not found (anchor lost)')
         return
     scalar_tag = cv(f, 'SCALAR_CONTAINER_TAG')
     ps, _ = explore(b)
@@ -74,7 +74,7 @@ def r05_6(ctx, run, rule='R05.6'):
     f = ctx.facts
     b = f.one('functions::get_jentry_by_name')
     if b is None:
-        run.violation(rule, 'functions::get_jentry_by_name', 'body', 'function not found (anchor lost)')
+        run.undecided(rule, 'functions::get_jentry_by_name', 'body', 'function not found (anchor lost)')
         return
     loops = natural_loops(b)
     heads = sorted(loops)
@@ -124,7 +124,7 @@ def r05_8(ctx, run, rule='R05.8'):
     b = f.one('functions::get_by_keypath')
     n = 0
     if b is None:
-        run.violation(rule, 'functions::get_by_keypath', 'body', 'function not found (anchor lost)')
+        run.undecided(rule, 'functions::get_by_keypath', 'body', 'function not found (anchor lost)')
     else:
         loops = natural_loops(b)
         ex = Explorer(b, max_paths=4000)
@@ -284,7 +284,7 @@ def r05_7(ctx, run, rule='R05.7'):
     f = ctx.facts
     b = f.one('functions::type_of')
     if b is None:
-        run.violation(rule, 'functions::type_of', 'body', 'function not found (anchor lost)')
+        run.undecided(rule, 'functions::type_of', 'body', 'function not found (anchor lost)')
         return
     ps, _ = explore(b)
     g = lambda n: cv(f, n)
